@@ -66,7 +66,7 @@ func newPartition(id uuid.UUID, meta *pb.Partition, dataset *Dataset, raftWalDB 
 		dataset:        dataset,
 		index:          newIndexFromDatasetProto(dataset.Meta()),
 		raft:           nil,
-		wal:            wal.NewBadgerWAL(raftWalDB, id),
+		wal:            verifWrapWAL(id, wal.NewBadgerWAL(raftWalDB, id)),
 		raftTransport:  raftTransport,
 		datasetManager: datasetManager,
 		raftMu:         &sync.RWMutex{},
